@@ -95,6 +95,15 @@ def discharged(cfg: CFG, f: FuncInfo, call: ast.Call, recv: str) -> str | None:
             assert isinstance(a, ast.Assert)
             if _polarity(a.test, recv, "done") == "neg":
                 return "(c) cancelled() tested first, then `assert not done()`"
+        # ... or the same assert packaged in a synchronous private method of the same object, called as a statement before the set
+        if recv.startswith("self.") and f.cls is not None:
+            for d in cfg.dominated_by(node, lambda x: x.kind == "stmt" and isinstance(x.ast, ast.Expr) and isinstance(x.ast.value, ast.Call) and isinstance(x.ast.value.func, ast.Attribute) and norm(x.ast.value.func.value) == "self"):
+                hname = d.ast.value.func.attr  # type: ignore[union-attr]
+                h = next((k.methods[hname] for k in f.cls.mro if hname in k.methods), None)
+                if h is None or h.is_async:
+                    continue
+                if any(isinstance(x, ast.Assert) and _polarity(x.test, recv, "done") == "neg" for x in h.node.body) and not any(isinstance(x, (ast.Assign, ast.AugAssign)) and any(norm(t) == recv for t in (x.targets if isinstance(x, ast.Assign) else [x.target])) for x in own_nodes(h.node)):
+                    return f"(c) cancelled() tested first, then `assert not done()` in self.{hname}()"
     # (b) created here, no await in between
     for d in cfg.dominated_by(node, lambda x: x.kind == "stmt" and isinstance(x.ast, (ast.Assign, ast.AnnAssign))):
         a = d.ast
